@@ -6,7 +6,7 @@ reg("C17",
     case_type="c17_case", verdicts="c17_verdicts",
     property_modules=["Properties.C17"],
     theorems=["c17_suffix", "c17_first", "c17_irr_only", "c17_holdoff", "c17_filter", "c17_tripper",
-              "c17_checker_sound", "c17_irr_id_unfixed_refuted"],
+              "c17_checker_sound", "c17_irr_id_unfixed_refuted", "c17_irr_num_unfixed_refuted"],
     proof_files=["Base/Prelude.v", "Model/Gates.v", "Spec/C17_Spec.v", "Proofs/C17_Lists.v",
                  "Proofs/C17_Gates.v", "Proofs/C17_Proofs.v", "Proofs/C17_CheckSound.v",
                  "Properties/C17.v", "Check/C17_Check.v"],
@@ -31,8 +31,9 @@ reg("C17",
                "state machines of all five gates, the tripper, both gators and MinimalBlockNumFilter: c17_suffix (handler "
                "input = skipn from the first position satisfying the trigger predicate, trigger included iff inclusive), "
                "c17_first, c17_irr_only, c17_holdoff (incl. handler results returned unchanged), c17_filter, c17_tripper; "
-               "the model follows the code after the two fix patches (c17_irr_id_unfixed_refuted: the shipped "
-               "IrreversibleBlockIDGate opens on a New event). On every run the model and a declarative boolean "
+               "the model follows the code after the three fix commits (c17_irr_id_unfixed_refuted: the shipped "
+               "IrreversibleBlockIDGate opens on a New event; c17_irr_num_unfixed_refuted: the shipped "
+               "IrreversibleBlockNumGate knows the constants 0, 1, 2 instead of the first streamable block). On every run the model and a declarative boolean "
                "checker (proved sound: c17_checker_sound) are compared call by call with the real gates.",
     assumptions=["MaxHoldOff counter modelled as an unbounded integer (Go int overflow needs 2^63 held blocks)",
                  "block timestamps are valid protobuf timestamps (RealtimeGate panics on a nil timestamp)"],
